@@ -30,6 +30,9 @@ VALS_MIN = [0.0, 0.5, -0.5, 0.75, 10.0, math.inf]
 VALS_T4 = [0.0, 0.5, 0.75, math.inf, -math.inf, math.nan]
 
 
+PREC = {"prec": (0.0, 0.5), "precK": (1000.0, 1e-3)}  # kind -> (optimum, precision)
+
+
 class RefWrapper:
     def __init__(self, kind):
         self.kind = kind
@@ -51,7 +54,7 @@ def ref_eval(ref_stack, value, maximize, calls):
             return -math.inf if maximize else math.inf
         v = go(i + 1)
         w.n += 1
-        if w.kind == "prec" and abs(v - 0.0) <= 0.5 and not w.hit:
+        if w.kind in PREC and abs(v - (-PREC[w.kind][0] if maximize else PREC[w.kind][0])) <= PREC[w.kind][1] and not w.hit:
             w.eta = w.n
             w.hit = True
         return v
@@ -59,13 +62,16 @@ def ref_eval(ref_stack, value, maximize, calls):
     return go(0)
 
 
-def build(kinds, maximize, feed, counter, use_cache=False):
+def build(kinds, maximize, feed, counter, use_cache=False, array_valued=False):
     from pyhms.core.problem import EvalCountingProblem, EvalCutoffProblem, FunctionProblem, PrecisionCutoffProblem, StatsGatheringProblem
 
     bounds = np.array([(-1.0, 2.0), (3.0, 4.5)])
 
     def f(x):
         counter[0] += 1
+        if array_valued:
+            # objectives written as `lambda x: -x**2` on a 1-D genome return a 1-element array
+            return np.array([feed[0]])
         return feed[0]
 
     fp = FunctionProblem(f, bounds=bounds, maximize=maximize, **({"use_cache": True} if use_cache else {}))
@@ -76,8 +82,8 @@ def build(kinds, maximize, feed, counter, use_cache=False):
             p = EvalCountingProblem(p)
         elif k.startswith("cut"):
             p = EvalCutoffProblem(p, int(k[3]))
-        elif k == "prec":
-            p = PrecisionCutoffProblem(p, 0.0, 0.5)
+        elif k in PREC:
+            p = PrecisionCutoffProblem(p, (-PREC[k][0] if maximize else PREC[k][0]), PREC[k][1])
         elif k == "stats":
             p = StatsGatheringProblem(p)
         objs.append(p)
@@ -88,7 +94,7 @@ def build(kinds, maximize, feed, counter, use_cache=False):
 PAIRS = [(0.0, 1.0), (1.0, 0.0), (2.0, 2.0), (-1.0, math.inf), (-math.inf, 3.0)]
 
 
-def run_stack(res, kinds, maximize, seqlen, vals, only_seq=None, use_cache=False):
+def run_stack(res, kinds, maximize, seqlen, vals, only_seq=None, use_cache=False, array_valued=False):
     from pyhms.core.problem import get_function_problem
     from pyhms.stop_conditions import SingularProblemPrecisionReached
 
@@ -98,7 +104,7 @@ def run_stack(res, kinds, maximize, seqlen, vals, only_seq=None, use_cache=False
     for seq in ([only_seq] if only_seq is not None else itertools.product(range(len(vals)), repeat=seqlen)):
         feed = [0.0]
         counter = [0]
-        top, objs, fp, bounds = build(kinds, maximize, feed, counter, use_cache)
+        top, objs, fp, bounds = build(kinds, maximize, feed, counter, use_cache, array_valued)
         ref = [RefWrapper(k) for k in kinds]
         rcalls = [0]
         refused = False
@@ -113,10 +119,12 @@ def run_stack(res, kinds, maximize, seqlen, vals, only_seq=None, use_cache=False
                 # value served from a cache filled by ANOTHER problem object shows up as a wrong returned value
                 x = np.array([0.5 + 0.125 * step, 3.5])
             got = top.evaluate(x)
+            if array_valued and isinstance(got, np.ndarray):
+                got = float(got[0])
             want = ref_eval(ref, v, maximize, rcalls)
             if math.isinf(want):
                 refused = True
-            if abs(v) <= 0.5:
+            if abs(v) <= 0.5 or abs(abs(v) - 1000.0) <= 1e-3:
                 hits += 1
             if v != v:
                 refused = True  # counts as non-trivial: an undefined objective value passed through the stack
@@ -130,7 +138,7 @@ def run_stack(res, kinds, maximize, seqlen, vals, only_seq=None, use_cache=False
                     if o.n_evaluations != r.n:
                         bad = (f"C16/counter:{k}", f"{k} wrapper reports {o.n_evaluations} evaluations, reference {r.n}")
                         break
-                    if k == "prec":
+                    if k in PREC:
                         if o.hit_precision != r.hit or not (o.ETA == r.eta):
                             bad = ("C16/precision-bookkeeping", f"precision wrapper hit={o.hit_precision} ETA={o.ETA}, reference hit={r.hit} ETA={r.eta}")
                             break
@@ -158,7 +166,7 @@ def run_stack(res, kinds, maximize, seqlen, vals, only_seq=None, use_cache=False
             res.transitions.add(h64((prev_state, vi, st)))
             prev_state = st
             if bad is not None:
-                rep = dict(rep_base, desc={"stack": list(kinds), "maximize": maximize, "values": [sgn * vals[i] for i in seq], "failing_call": step + 1, "use_cache": use_cache})
+                rep = dict(rep_base, desc={"stack": list(kinds), "maximize": maximize, "values": [sgn * vals[i] for i in seq], "failing_call": step + 1, "use_cache": use_cache, "array_valued": array_valued})
                 res.add_violation(ID, bad[0], f"stack {'>'.join(kinds)} maximize={maximize} call {step + 1} of values {[sgn * vals[i] for i in seq]}: {bad[1]}", {}, rep)
                 break
         if refused or hits >= 2:
@@ -182,16 +190,23 @@ def units(tier, seed):
         for i in range(0, len(ss), 10):
             us.append({"stacks": ss[i : i + 10], "len": 4, "vals": VALS_MIN + [-math.inf, math.nan]})
             us.append({"stacks": ss[i : i + 10], "len": 5, "vals": [0.0, 0.5, -0.5, 0.75]})
-        s2 = stacks(2)
-        for i in range(0, len(s2), 14):
-            us.append({"stacks": s2[i : i + 14], "len": 4, "vals": [0.25, 0.5, 0.75, 10.0], "use_cache": True})
-    else:
+    if tier != "quick":
         ss = stacks(3)
         for i in range(0, len(ss), 4):
             us.append({"stacks": ss[i : i + 4], "len": 6, "vals": VALS_MIN})
         s4 = [tuple(s) for s in itertools.product(KINDS, repeat=4)]
         for i in range(0, len(s4), 40):
             us.append({"stacks": s4[i : i + 40], "len": 4, "vals": VALS_T4})
+    # memoising problems (use_cache=True): one genome per call
+    s2 = stacks(2)
+    for i in range(0, len(s2), 14):
+        us.append({"stacks": s2[i : i + 14], "len": 4, "vals": [0.25, 0.5, 0.75, 10.0], "use_cache": True})
+    # a precision wrapper whose optimum is far from 0 (a relative tolerance would matter), also with an objective that
+    # returns 1-element arrays (the wrappers must hand the objective's value on unchanged)
+    sK = [tuple(t) for d in (1, 2, 3) for t in itertools.product(["count", "cut2", "precK", "stats"], repeat=d) if "precK" in t]
+    for arr in (False, True):
+        for i in range(0, len(sK), 8):
+            us.append({"stacks": sK[i : i + 8], "len": 4, "vals": [1000.0, 1000.001, 1000.0025, 999.9985, 3.0], "array_valued": arr})
     return us
 
 
@@ -200,7 +215,7 @@ def run_unit(unit):
     for kinds in unit["stacks"]:
         kinds = tuple(kinds)
         for mx in (False, True):
-            run_stack(res, kinds, mx, unit["len"], unit["vals"], use_cache=unit.get("use_cache", False))
+            run_stack(res, kinds, mx, unit["len"], unit["vals"], use_cache=unit.get("use_cache", False), array_valued=unit.get("array_valued", False))
         res.configs += 1
         res.configs_completed += 1
     res.status["ok"] += res.executions
@@ -224,5 +239,5 @@ def replay(rep):
     for v in base:
         if v not in uniq:
             uniq.append(v)
-    run_stack(res, tuple(d["stack"]), mx, len(base), uniq, only_seq=tuple(uniq.index(v) for v in base), use_cache=d.get("use_cache", False))
+    run_stack(res, tuple(d["stack"]), mx, len(base), uniq, only_seq=tuple(uniq.index(v) for v in base), use_cache=d.get("use_cache", False), array_valued=d.get("array_valued", False))
     return res.violations
